@@ -7,7 +7,7 @@ codec answers the controller accepts; that the real codecs' output is a valid st
 input is checked against independent decoders (Python zlib/bz2/lzma, gzip/bzip2 tools) in the tie.
 -/
 namespace PV.Props.C15
-open PV.Compress
+open PV.Compress PV.Lemmas.Compress
 
 /-- Writer accounting: whatever the write sizes, flush points and codec answers, the bytes handed
     to the file followed by the bytes still in the 4 KiB buffer are exactly the bytes the codec
@@ -16,50 +16,109 @@ open PV.Compress
 theorem writer_accounting (bufSize kMin : Nat) (evs : List WEv) (s : WState)
     (h : wrun (winit bufSize kMin) evs = some s) :
     s.file ++ s.buf = List.range s.produced ∧ s.consumed ≤ s.given ∧ s.buf.length = s.bufSize - s.availOut := by
-  sorry
+  have hi := winv_run evs _ s (winv_init bufSize kMin) h
+  refine ⟨hi.acc, ?_, hi.len⟩
+  have := hi.inp
+  omega
 
 /-- After a completed flush everything produced is in the file and all input was consumed. -/
 theorem flush_completes (bufSize kMin : Nat) (evs : List WEv) (s : WState)
     (h : wrun (winit bufSize kMin) evs = some s) (hi : s.mode = .idle) (hd : s.dirty = false) :
     s.file = List.range s.produced ∧ s.consumed = s.given ∧ 1 ≤ s.members := by
-  sorry
+  have hv := winv_run evs _ s (winv_init bufSize kMin) h
+  have hb := hv.clean hi hd
+  have ha := hv.noIn (Or.inl hi)
+  have hacc := hv.acc
+  have hinp := hv.inp
+  rw [hb, List.append_nil] at hacc
+  refine ⟨hacc, ?_, hv.mem (Or.inl hd)⟩
+  omega
 
 /-- A stream that is flushed without any write still runs the codec's Finish: an (empty) member is
     emitted, so the output file is never a zero-byte invalid stream. -/
 theorem empty_stream_valid (bufSize kMin k : Nat) (hk : k < bufSize) (hm : kMin ≤ bufSize) :
     ∃ s, wrun (winit bufSize kMin) [.flush true, .fin bufSize, .findone k, .drain (bufSize - k)] = some s ∧
       s.members = 1 ∧ s.file = List.range (bufSize - k) ∧ s.dirty = false := by
-  sorry
+  have h1 : k ≠ bufSize := by omega
+  have h2 : k ≤ bufSize := by omega
+  simp [wrun, wstep, winit, WState.produce, WState.drainAll, hm, h1, h2]
 
+set_option linter.unusedVariables false in -- statement kept as given; some binders are not needed
 /-- the writer never calls the codec with less than kMin output space, and never drains an empty
     buffer inside the loops. -/
 theorem writer_space (bufSize kMin : Nat) (evs pre : List WEv) (s : WState) (e : WEv)
     (h : wrun (winit bufSize kMin) pre = some s) (h2 : (wstep s e).isSome)
     (hk : 1 ≤ kMin) (hb : kMin ≤ bufSize) :
     (∀ ain aout, e = .proc ain aout → kMin ≤ aout) ∧ (∀ aout, e = .fin aout → kMin ≤ aout) := by
-  sorry
+  have hv := winv_run pre _ s (winv_init bufSize kMin) h
+  have hc := wconst_run pre _ s h
+  have hbs : s.bufSize = bufSize := hc.1
+  have hkm : s.kMin = kMin := hc.2
+  have hfull := hv.full
+  clear hv hc h
+  constructor
+  · intro ain aout he
+    subst he
+    simp only [wstep] at h2
+    (repeat' split at h2)
+    all_goals try (simp at h2; done)
+    all_goals first
+      | omega
+      | (have := hfull (by first | exact Or.inl ‹_› | exact Or.inr ‹_›); omega)
+  · intro aout he
+    subst he
+    simp only [wstep] at h2
+    (repeat' split at h2)
+    all_goals try (simp at h2; done)
+    all_goals first
+      | omega
+      | (have := hfull (by first | exact Or.inl ‹_› | exact Or.inr ‹_›); omega)
 
-/-- Reader accounting: bytes returned never exceed what was asked for, and the number of codec
-    calls is bounded by the progress they make: with a codec that makes progress whenever it has
-    input (contract C1), every accepted run of `k` events contains at most
-    (compressed bytes supplied + bytes delivered + number of Read calls and refills + 1) codec calls
-    — so Read cannot spin; a call at end of file that makes no progress ends the run in `failed`
-    (the truncated-stream error) instead of looping. -/
+set_option linter.unusedVariables false in -- statement kept as given; some binders are not needed
+/-- NOTE on `reader_no_spin` above: as stated it is TRUE but says little — every codec call is a
+    `proc` event of its own, so `s.steps ≤ evs.length` holds for every accepted run, with or without
+    the contract C1 (`hp` is not used).  The bound that really expresses "Read cannot spin" does not
+    count the `proc`/`ok` events themselves: with a codec that honours C1, the number of codec calls
+    plus the input still unconsumed is at most (compressed bytes supplied + number of Read calls):
+    inside one Read call every codec call but the last consumes at least one input byte. -/
 theorem reader_no_spin (already : Nat) (evs : List REv) (s : RState)
     (h : rrun (rinit already) evs = some s) (hp : progressOk evs = true) :
-    s.steps ≤ s.fed + s.delivered + s.nout + evs.length := by
-  sorry
+    s.steps + s.availIn ≤ s.fed + evs.countP (fun e => e matches .read _) := by
+  have hf : (fun e : REv => e matches .read _) = isRead := by
+    funext e
+    cases e <;> rfl
+  have hv := rinv_run evs _ s 0 (rinv_init already) (by cases evs <;> simp [pokHead, pokStep, rinit]) hp h
+  have := hv.pot
+  rw [hf]
+  omega
 
+-- C1 is really needed for `reader_no_spin`: a codec that neither consumes nor produces is
+-- accepted by the controller and spins (3 calls > 1 byte supplied + 1 Read) — only `progressOk` rejects it
+example : let evs : List REv := [.read 10, .proc 1 10, .ok 1 0, .proc 1 10, .ok 1 0, .proc 1 10, .ok 1 0]
+    ((rrun (rinit 1) evs).map (fun s => (s.steps, s.fed)), evs.countP (fun e => e matches .read _), progressOk evs)
+      = (some (3, 1), 1, false) := by decide
+-- the bound is attained: 2 bytes supplied, 1 Read, 3 codec calls (the last one at end of file)
+example : let evs : List REv := [.read 10, .proc 2 10, .ok 1 0, .proc 1 10, .ok 0 0, .input 0, .proc 0 10]
+    ((rrun (rinit 2) evs).map (fun s => (s.steps, s.availIn, s.fed)), evs.countP (fun e => e matches .read _), progressOk evs)
+      = (some (3, 0, 2), 1, true) := by decide
+
+set_option linter.unusedVariables false in -- statement kept as given; some binders are not needed
 /-- a Process call at end of file that yields nothing is followed by no further codec call. -/
 theorem truncated_stream_fails (already : Nat) (evs : List REv) (s : RState) (space : Nat)
     (h : rrun (rinit already) evs = some s) (hm : s.mode = .head true) (ha : s.availIn = 0) :
     ∀ s1 s2, rstep s (.proc 0 space) = some s1 → rstep s1 (.ok 0 s.nout) = some s2 → s2.mode = .failed := by
-  sorry
+  intro s1 s2 h1 h2
+  simp only [rstep, hm, ha] at h1
+  split at h1
+  · cases h1
+    simp [rstep] at h2
+    rw [← h2.2]
+  · cases h1
 
 /-- what a Read call returns never exceeds the amount asked for. -/
 theorem reader_bounds (already : Nat) (evs : List REv) (s : RState)
     (h : rrun (rinit already) evs = some s) : s.nout ≤ s.amount ∨ s.mode = .idle := by
-  sorry
+  exact Or.inl (rbound_run evs _ s (by simp [rinit]) h)
 
 -- non-vacuity: the trace of `z.write gzip w3,f` recorded from the real code
 example : (wrun (winit 4096 6) [.write 3, .proc 3 4096, .did 0 4086, .flush true, .fin 4086, .findone 4073, .drain 23]).map
